@@ -54,6 +54,9 @@ EXTRA_DOCS = [
     "@\u0130x{k, t = {dotted capital I in the entry type}}",
     "@a{k, \u0130x = {1}, stra\xdfe = {2}, \ufb01 = {3}}",
     "@a{k\\ , t = {key ends in a backslash}}\n@comment{text ends in a backslash\\ }\n",
+    "@comment{a}@comment{a}",  # structurally equal blocks (same text, same line)
+    "@preamble{p}@preamble{p}@comment{a}@preamble{p}",
+    "% same\n@a{k1, t = {x}}\n% same\n@a{k2, t = {x}}\n% same",
 ]
 
 
@@ -115,6 +118,12 @@ def shards(tier):
     return out
 
 
+def _hostile_library():
+    from .. import hostile
+
+    return hostile.libraries()[-5]()  # holds a block of a class the writer does not know
+
+
 def check_doc(text, exp, fspecs, acc):
     rec = dialect.recognise(text)
     if rec is None or not dialect.unique_keys(rec) or (exp is not None and rec != exp):
@@ -149,6 +158,11 @@ def check_doc(text, exp, fspecs, acc):
                     )
                     return
             l2 = bibtexparser.parse_string(w1)
+            # a rejected write in between (same format object) must not leave anything behind
+            try:
+                bibtexparser.write_string(_hostile_library(), bibtex_format=fmt)
+            except Exception:
+                pass
             w2 = bibtexparser.write_string(l2, bibtex_format=fmt)
         except Exception as e:
             acc.exception(e, case, "parse/write round trip", size=len(text))
